@@ -4,8 +4,8 @@ tier=${1:-quick}
 cd /verif
 for d in seeded/*/; do
   id=$(basename $d); prop=${id%%-*}
-  patch=$d/patch.diff
-  [ -f $d/rebased.diff ] && patch=$d/rebased.diff
+  patch=/verif/$d/patch.diff
+  [ -f $d/rebased.diff ] && patch=/verif/$d/rebased.diff
   git -C /repo checkout -- . 2>/dev/null
   if ! git -C /repo apply --check $patch 2>/dev/null; then echo "$id SKIP (patch does not apply to the current tree)"; continue; fi
   git -C /repo apply $patch
